@@ -4,6 +4,7 @@ import NakenVerif.FileIO.BinImpl
 import NakenVerif.FileIO.ReadImpl
 import NakenVerif.FileIO.WdcImpl
 import NakenVerif.FileIO.Uf2Impl
+import NakenVerif.FileIO.ElfImpl
 import Std.Data.HashMap
 import NakenVerif.Generated.CpuList
 namespace Driver.FileIO
@@ -53,10 +54,36 @@ def srecSizeOf (cpu : String) : Nat :=
   | some c => c.srecSize
   | none => 0
 
+/-- `name=hexaddr[!],...` → the exported symbols in order -/
+def parseSyms (s : String) : List ElfImpl.Sym :=
+  if s == "-" then [] else
+  (s.splitOn ",").filterMap (fun e =>
+    if e.endsWith "!" then
+      let body := (e.toList.dropLast)
+      let rev := body.reverse
+      let addr := (rev.takeWhile (· ≠ '=')).reverse
+      let name := (rev.dropWhile (· ≠ '=')).drop 1 |>.reverse
+      some (charsToBytes name, parseHexNat addr)
+    else none)
+
+def cpuInfoOf (cpu : String) : Option CpuInfo :=
+  let name := if cpu == "-" then "msp430" else cpu
+  cpuList.find? (fun c => c.name == name)
+
+/-- `memory.endian` as the harness sets it: the CPU's default, overridden by the letters b / l -/
+def endianOf (cpu opts : String) : Bool :=
+  if opts.contains 'l' then false else if opts.contains 'b' then true
+  else match cpuInfoOf cpu with | some c => c.bigEndian | none => false
+
+def elfConfig (cpu : String) : ElfImpl.Config :=
+  match cpuInfoOf cpu with
+  | some c => { cpuType := c.type, alignment := c.alignment, filename := charsToBytes "image.asm".toList }
+  | none => { cpuType := 0, alignment := 1, filename := charsToBytes "image.asm".toList }
+
 /-- `wr <fmt> <cpu|-> <opts> <cells> <entry|-> [syms]` -/
 def handleWr (args : List String) : String :=
   match args with
-  | fmt :: cpu :: opts :: cells :: entry :: _ =>
+  | fmt :: cpu :: opts :: cells :: entry :: rest =>
     let (low, cs) := parseCells cells
     let img : Image := { low := low, cells := cs,
                          entry := if entry == "-" then 0xffffffff else parseHexNat entry.toList,
@@ -71,6 +98,11 @@ def handleWr (args : List String) : String :=
     else if fmt == "bin" then head ++ toHexString (BinImpl.write img)
     else if fmt == "wdc" then head ++ toHexString (WdcImpl.write img)
     else if fmt == "uf2" then head ++ toHexString (Uf2Impl.write img)
+    else if fmt == "elf" then
+      let syms := match rest with | s :: _ => parseSyms s | [] => []
+      let img := { img with bigEndian := endianOf cpu opts }
+      "ok low=" ++ natHex img.low ++ " high=" ++ natHex (ElfImpl.highAddr img) ++ " s0=- file=" ++
+        toHexString (ElfImpl.write img syms (elfConfig cpu))
     else "not-modelled"
   | _ => "bad-op"
 
